@@ -7,7 +7,7 @@ EVENT_KEYS = [PREFIX + b"/events/e1", PREFIX + b"/events/e2", PREFIX + b"/events
 LOOKALIKES = [PREFIX + b"/pods/events/p1", PREFIX + b"/eventsx/q", PREFIX + b"/events", PREFIX + b"/a/events/x",
               PREFIX + b"/pods/p2"]
 # the ttl timers of the in-memory engine (KB.MemTTL): theorems about the model the `engine` suite runs
-EXTRA_PROP_MODULES = [("KB.Props.C17Mem", "KB.C17Mem")]
+EXTRA_PROP_MODULES = [("KB.Props.C17Mem", "KB.C17Mem"), ("KB.Props.C07Expire", "KB.C07Expire")]
 
 
 def is_event(k):
@@ -408,6 +408,153 @@ def concurrent_oracle(case):
     return None
 
 
+# ---------------------------------------------------------------- an Event renewed after the mark (tikv: the ttl pass)
+
+MAGIC = bytes.fromhex("57fb808b")
+RENEW_LOOKALIKES = [PREFIX + b"/pods/events/p1", PREFIX + b"/eventsx/q", PREFIX + b"/a/events/x", PREFIX + b"/pods/p2"]
+
+
+def index_call(lines, key):
+    """the position of the compare-and-delete of `key`'s revision record among the delete calls of the LAST compaction
+    of `lines` (run unmasked on the model), from the delete-call log; None when that compaction makes no such call"""
+    out = core.run_model("backend", lines + ["dellog"])
+    log = out[-1].split() if out else []
+    if len(log) < 2 or log[0] != "dellog" or log[1] == "-":
+        return None
+    want = "delcur:" + (MAGIC + key + b"\x24" + bytes(8)).hex()
+    calls = log[1].split(",")
+    return calls.index(want) if want in calls else None
+
+
+def renewed_event_case(seed, i, variant):
+    """The ttl pass rides on a compaction at R while an Event's newest change lies ABOVE R and its older version lies at
+    or below the timeout revision: create e (v1) and a non-event key; compaction (takes the mark); sleep past the ttl;
+    write the non-event key (revision b); update e (revision c > b); reads at revisions in [b, c) BEFORE; `compact R`
+    with b <= R < c (timeout revision = the mark: v1 is at or below it, the revision record says c); the same reads AFTER
+    must be identical. Then the Event ages: a mark at or above c older than the ttl -> it expires wholly and can be
+    created again. Variants `f` / `c`: before that, one pass in which the compare-and-delete of e's (expired) revision
+    record fails - all its versions were kept by a crashed compaction - must leave e readable (none of its versions expires)."""
+    r = rng_for(seed, "c17renewed/%d" % i)
+    e = r.choice(EVENT_KEYS)
+    n = r.choice(RENEW_LOOKALIKES)
+    lo, hi = hx(PREFIX + b"/"), hx(PREFIX + b"0")
+    rev = hist.INIT
+    lines = [hist.cfg_line("tikv", eventsttl=1, ttl=TTL_MS)]
+
+    def w(line):
+        nonlocal rev
+        rev += 1
+        lines.extend([line, "rev"])
+        return rev
+
+    e_rev = w("create %s %s" % (hx(e), hx(b"v1")))
+    n_rev = w("create %s %s" % (hx(n), hx(b"n1")))
+    for _ in range(r.randint(0, 2)):
+        if r.random() < 0.5:
+            e_rev = w("update %s %s %d" % (hx(e), hx(b"v1" + bytes([97 + rev % 26])), e_rev))
+        else:
+            n_rev = w("update %s %s %d" % (hx(n), hx(b"n1" + bytes([97 + rev % 26])), n_rev))
+    lines += ["compact 0", "sleep 1300"]                  # the mark: revision `rev`, older than the ttl from here on
+    b = None
+    for _ in range(r.randint(1, 3)):
+        n_rev = w("update %s %s %d" % (hx(n), hx(b"n2" + bytes([97 + rev % 26])), n_rev))
+        b = b or n_rev
+    c = e_rev = w("update %s %s %d" % (hx(e), hx(b"v2"), e_rev))
+    for _ in range(r.randint(0, 2)):
+        n_rev = w("update %s %s %d" % (hx(n), hx(b"n3" + bytes([97 + rev % 26])), n_rev))
+    R = r.randint(b, c - 1)
+    probes = []
+    for q in sorted(set([R, c - 1, r.randint(R, c - 1)])):
+        probes += ["list %s %s %d 0" % (lo, hi, q), "get %s %d" % (hx(e), q), "get %s %d" % (hx(n), q)]
+    lines += ["echo before"] + probes + ["compact %d" % R, "echo after"] + probes + ["dellog", "dump"]
+    lines += ["echo latest", "get %s 0" % hx(e), "get %s 0" % hx(n), "list %s %s 0 0" % (lo, hi)]
+    meta = {"engine": "tikv", "renewed": True, "ev": e, "other": n, "R": R, "variant": variant}
+    if variant in ("f", "c"):
+        # one more change, then a "compaction" that takes the mark but dies before its first delete: every version stays
+        e_rev = w("update %s %s %d" % (hx(e), hx(b"v3"), e_rev))
+        lines += ["compact 0 crash=0", "sleep 1300"]
+        j = index_call(lines + ["compact 0"], e)
+        if j is None:
+            raise RuntimeError("C17: the compaction that should expire %s makes no compare-and-delete of its revision record" % e)
+        meta["index_call"] = j
+        lines += ["compact 0 m=%d:%s" % (j, variant), "dellog", "dump", "echo index-delete-failed",
+                  "get %s 0" % hx(e), "get %s 0" % hx(n), "sleep 1300"]
+    else:
+        lines += ["compact 0", "sleep 1300"]
+    # the mark at/above the Event's newest change is older than the ttl now: it expires wholly, can be created again
+    lines += ["compact 0", "dellog", "dump", "echo expired", "get %s 0" % hx(e), "get %s 0" % hx(n),
+              "create %s %s" % (hx(e), hx(b"again")), "rev", "get %s 0" % hx(e), "list %s %s 0 0" % (lo, hi)]
+    return core.Case("backend", lines, meta)
+
+
+def renewed_oracle(case):
+    e, n = case.meta["ev"], case.meta["other"]
+    # 1. the reads at revisions >= R, before and after the compaction the ttl pass rides on
+    sect, cur = {"before": [], "after": []}, None
+    for i, (line, out) in enumerate(zip(case.lines, case.impl)):
+        t = line.split()
+        if t and t[0] == "echo":
+            cur = t[1]
+        elif t and t[0] == "compact" and cur == "before":
+            cur = None
+        elif t and cur in ("before", "after") and t[0] in ("get", "list"):
+            sect[cur].append((i, line, out))
+    for (i, l1, o1), (_, l2, o2) in zip(sect["before"], sect["after"]):
+        if l1 == l2 and o1.split()[2:] != o2.split()[2:]:
+            return ("line %d: `%s` returned `%s` before the compaction at %d and `%s` after it: the ttl pass that rides on the "
+                    "compaction removed a version of an Event whose newest change lies above the compaction revision (and is "
+                    "younger than the ttl) - a read at or above the compaction revision changed" % (i + 1, l1, o1[:160], case.meta["R"], o2[:160]),
+                    "ttl-pass-removed-live-version")
+    # 2. young / wholly / only Events / can be created again
+    cur = None
+    newest = {}         # key -> (value, revision) of its newest acknowledged change
+    compacted = False
+    for i, (line, out) in enumerate(zip(case.lines, case.impl)):
+        t, o = line.split(), out.split()
+        if not t or not o:
+            continue
+        if t[0] == "echo":
+            cur = t[1]
+            continue
+        if t[0] == "compact":
+            compacted = True
+        if t[0] in ("create", "update") and o[1] == "ok":
+            newest[hist.unhx(t[1])] = (hist.unhx(t[2]), int(o[2]))
+        if t[0] == "get" and t[2] == "0" and o[1] != "err":
+            k = hist.unhx(t[1])
+            got = hist.parse_kv(o[2]) if o[2] != "-" else None
+            want = newest.get(k)
+            if k == n and (got is None or got[1:] != want):
+                return ("line %d: %s -> %s: %s is not an Event and its newest acknowledged change is %s: it must never expire"
+                        % (i + 1, line, out, k, want), "non-event-key-removed")
+            if k == e and cur in ("latest", "index-delete-failed") and got is None:
+                why = ("its newest change is younger than the ttl" if cur == "latest" else
+                       "the compare-and-delete of its revision record failed in the only pass since it aged: the key was not "
+                       "removed, so none of its versions may be")
+                return ("line %d: %s -> %s: the Event reads absent although %s" % (i + 1, line, out, why),
+                        "expired-too-young" if cur == "latest" else "expired-partially")
+            if k == e and got is not None and want is not None and got[1:] != want:
+                return ("line %d: %s -> %s: the newest acknowledged change of the Event is %s" % (i + 1, line, out, want), "event-key-wrong")
+        if t[0] == "create" and cur == "expired" and hist.unhx(t[1]) == e and o[1] != "ok":
+            prev = next((x for l, x in zip(case.lines[:i][::-1], case.impl[:i][::-1]) if l == "get %s 0" % hx(e)), "")
+            if prev.split()[-1:] == ["-"]:
+                return ("line %d: the Event reads absent after its ttl but cannot be created again (%s -> %s): a part of it "
+                        "outlived the rest" % (i + 1, line, out), "recreate-fails")
+        if t[0] == "dump" and compacted and len(o) == 2 and o[1] != "-":
+            # wholly: the revision record and the version it names are there together, or the key has no record at all
+            revs, named = [], None
+            for kv in o[1].split(","):
+                ik, val = (bytes.fromhex(x) if x != "-" else b"" for x in kv.split("="))
+                if ik.startswith(MAGIC) and ik[4:-9] == e:
+                    revs.append(int.from_bytes(ik[-8:], "big"))
+                    if revs[-1] == 0:
+                        named = int.from_bytes(val[:8], "big")
+            if revs and (0 not in revs or named not in revs):
+                return ("line %d: after a ttl pass the Event %s has the records %s (0 = revision record%s): the key was "
+                        "removed in part" % (i + 1, e, sorted(revs), ", naming revision %d" % named if named else ""), "expired-partially")
+    return None
+
+
 def oracle(case):
     ref = hist.Ref()
     clock = 0
@@ -471,6 +618,9 @@ def check(rep, tier, seed):
     cases += [engine_ttl_case(seed, i, ENGINE_TTL_ENGINES[i % 2], tier) for i in range(2 if tier == "quick" else 20)]
     cases += [renew_case(seed, i, ["update", "recreate"][i % 2]) for i in range(2 if tier == "quick" else 24)]
     cases += [badger_young_case(i) for i in range(2 if tier == "quick" else 12)]
+    # tikv: an Event renewed after the mark, compacted below its newest change; and the failed compare-and-delete of an
+    # expired revision record (plain / other error / failed-condition error)
+    cases += [renewed_event_case(seed, i, ["", "c", "f"][i % 3]) for i in range(3 if tier == "quick" else 42)]
     core.run_cases(cases, workers=14)
     for c in cases:
         if c.meta.get("renew"):
@@ -479,7 +629,9 @@ def check(rep, tier, seed):
                     break
                 c.run()
             rep.cov["renew_cases_conclusive"] = rep.cov.get("renew_cases_conclusive", 0) + (1 if renew_conclusive(c) else 0)
-    pick = lambda c: badger_young_oracle(c) if c.meta.get("byoung") else engine_ttl_oracle(c) if c.meta.get("engine_ttl") else concurrent_oracle(c) if c.meta.get("concurrent") else renew_oracle(c) if c.meta.get("renew") else native_oracle(c) if c.meta.get("native") else oracle(c)
+    pick = lambda c: (badger_young_oracle(c) if c.meta.get("byoung") else renewed_oracle(c) if c.meta.get("renewed")
+                      else engine_ttl_oracle(c) if c.meta.get("engine_ttl") else concurrent_oracle(c) if c.meta.get("concurrent")
+                      else renew_oracle(c) if c.meta.get("renew") else native_oracle(c) if c.meta.get("native") else oracle(c))
     if core.judge(rep, "C17", cases, pick):
         return
     rep.assumptions += ["events TTL 1 s through the verif setter; model time advances only by the script's sleeps (300 ms = young, 1300 ms = old); "
